@@ -62,7 +62,29 @@ ACCEPT = os.path.join(LEAN, ".lake", "build", "bin", "alock-accept")
 IBIN = os.path.join(HARNESS, "target", "debug", "inject")
 
 
-def run_inject(prim, depth, inner, prop):
+def run_inject(prim, runs, prop):
+    """all runs of the budget, merged"""
+    tot = None
+    for (depth, inner, post) in runs:
+        r = run_inject1(prim, depth, inner, post, prop)
+        if tot is None:
+            tot = r
+            tot["runs"] = [[depth, inner, post]]
+        else:
+            tot["runs"].append([depth, inner, post])
+            for k in ("scenarios", "accepted", "s"):
+                tot[k] = round(tot[k] + r[k], 1)
+            tot["total_seen"] = tot.get("total_seen", 0) + r.get("total_seen", 0)
+            tot["rc"] = tot["rc"] or r["rc"]
+            tot["rejected"] += r["rejected"]
+            tot["violations"] += r["violations"]
+            tot["stderr"] += r["stderr"]
+            if r["scenarios"] == 0:
+                tot["empty_run"] = True
+    return tot
+
+
+def run_inject1(prim, depth, inner, post, prop):
     """Preemption injection: the real crate with one call preempted before each of its atomic
     operations by complete calls of other agents (hook H4), every recorded trace replayed in the
     acceptor of the atomic-granularity Lean model.  Returns a dict."""
@@ -71,8 +93,8 @@ def run_inject(prim, depth, inner, prop):
     fv = os.path.join(BUILD, "inject_viol_%s.txt" % tag)
     fr = os.path.join(BUILD, "inject_rej_%s.txt" % tag)
     fs = os.path.join(BUILD, "inject_stat_%s.txt" % tag)
-    cmd = ("set -o pipefail; %s %s %d %d 2>%s | tee >(grep ' V:' | head -200 > %s) | %s > %s"
-           % (IBIN, prim, depth, inner, fs, fv, ACCEPT, fr))
+    cmd = ("set -o pipefail; %s %s %d %d %d 2>%s | tee >(grep ' V:' | awk 'NR<=200' > %s) | %s > %s"
+           % (IBIN, prim, depth, inner, post, fs, fv, ACCEPT, fr))
     t0 = time.time()
     p = subprocess.run(["bash", "-c", cmd], capture_output=True, text=True, env=ENV)
     # the process substitution may still be flushing
@@ -623,12 +645,14 @@ def check(prop, tier, seed):
                                   "what": "the acceptor (lean/ALock/Atomic/Accept.lean) no longer builds", "log": log_a})
                 violations.append((rp, "no-failing-input-found"))
                 continue
-            depth, inner = INJECT_BUDGET[tier][prim]
-            r = run_inject(prim, depth, inner, prop)
-            cov["preemption_injection"][prim] = {k: r[k] for k in ("depth", "inner", "scenarios", "accepted", "s")}
+            r = run_inject(prim, INJECT_BUDGET[tier][prim], prop)
+            cov["preemption_injection"][prim] = {k: r[k] for k in ("runs", "scenarios", "accepted", "s")}
             total_hist += r["scenarios"]
             mine = [v for v in r["violations"] if prop in re.findall(r"C\d\d", v["what"].split("]")[0])]
-            incomplete = r["rc"] != 0 or r["scenarios"] == 0 or r.get("total_seen") != r["scenarios"]
+            if prop == "C10":
+                # a trace of a cancelled operation: the schedule has to contain a cancellation
+                mine = [v for v in mine if ":cancel" in v["trace"]]
+            incomplete = r["rc"] != 0 or r["scenarios"] == 0 or r.get("empty_run") or r.get("total_seen") != r["scenarios"]
             if mine:
                 v = mine[0]
                 hd = v["header"].split()
